@@ -1,6 +1,8 @@
 // Package vrand replaces "crypto/rand" in rewritten files: the scenario decides the bytes.
 package vrand
 
+import "io"
+
 // Next is the byte handed out by Read (scenario controlled; default 0).
 var Next byte
 
@@ -11,3 +13,13 @@ func Read(b []byte) (int, error) {
 	}
 	return len(b), nil
 }
+
+type reader struct{}
+
+func (reader) Read(b []byte) (int, error) { return Read(b) }
+
+// Reader is the deterministic stand-in of rand.Reader.
+var Reader io.Reader = reader{}
+
+// Text is rand.Text with the deterministic source.
+func Text() string { return "AAAAAAAAAAAAAAAAAAAAAAAAAA" }
